@@ -28,9 +28,9 @@ def solve(mk, st, method, nt, opts, d, m, B, ts, dt, degy=2, adjoint=False, adjo
 
 
 def scenario(task):
-    st, method, nt, opts, d, m, B, ts, dt = task
+    st, method, nt, opts, d, m, B, ts, dt, degy = task
     mk = sdes.Maker(symbolic=True, seed=11)
-    sde, bm, y0, ys = solve(mk, st, method, nt, opts, d, m, B, ts, dt)
+    sde, bm, y0, ys = solve(mk, st, method, nt, opts, d, m, B, ts, dt, degy=degy)
     validate(ys, mk.env, 1e-8)
     loss = e1.weighted_loss(mk, ys)
     params = list(sde.parameters())
@@ -57,12 +57,15 @@ def scenario(task):
 
 def tasks_for(tier):
     T = []
-    ts, dt = [0.0, 0.13, 0.2], 0.1
+    two, one = ([0.0, 0.13, 0.2], 0.1), ([0.0, 0.07, 0.1], 0.1)
     for st, method, nt, opts in e1.all_forward_configs():
-        T.append((st, method, nt, opts, 1, 2, 1, ts, dt))
+        light = method in ('euler', 'milstein') and not opts.get('grad_free')
+        ts, dt = two if light else one
+        T.append((st, method, nt, opts, 1, 2, 1, ts, dt, 1 if (method == 'srk' and nt != 'additive') else 2))
     if tier != 'quick':
         for st, method, nt, opts in e1.all_forward_configs():
-            T.append((st, method, nt, opts, 2, 2, 2, ts, dt))
+            T.append((st, method, nt, opts, 1, 2, 1, two[0], two[1], 1))      # two steps, affine f,g
+            T.append((st, method, nt, opts, 2, 2, 2, one[0], one[1], 1))      # d=2, batch 2
     return T
 
 
@@ -71,8 +74,8 @@ def run(ctx):
            'ForwardSDE.g_prod_and_gdg_prod_* (create_graph)', 'ForwardSDE.dg_ga_jvp_column_sum_v1', 'misc.vjp', 'misc.jvp',
            'torch.autograd.grad (PyTorch backward formulas, traced)')
     ctx.stubs.append('Brownian motion: deterministic stub keyed by the queried interval returning symbols (W, U, A)')
-    ctx.bounds = {'steps': '2 fixed steps + 1 interpolated output', 'dims': 'd=1 (quick); d=2, batch 2 (thorough)',
-                  'generic f,g': 'polynomial degree (1,2), all coefficients are parameters', 'loss': 'arbitrary linear weights on every output element'}
+    ctx.bounds = {'steps': '2 fixed steps + 1 interpolated output (1 step for grad_free Milstein, SRK, log-ODE in quick)', 'dims': 'd=1 (quick); d=2, batch 2 (thorough)',
+                  'generic f,g': 'polynomial degree (1,2) (affine in y for SRK diagonal/scalar and for d=2), all coefficients are parameters', 'loss': 'arbitrary linear weights on every output element'}
     ctx.assumptions += ['real arithmetic; "as measured by finite differences" is replaced by the exact symbolic derivative of the traced forward computation']
     ctx.outside += ['adaptive stepping', 'more than 2 steps', 'float error of autograd']
     tasks = tasks_for(ctx.tier)
@@ -91,7 +94,7 @@ def run(ctx):
             ctx.inconc(name, f'{n}: unknown'); continue
         gf = ',grad_free' if t[3].get('grad_free') else ''
         ctx.violation(f"{t[0]},{t[1]},{t[2]}{gf}|grad|{n.split('[')[0]}", f"autograd gradient wrt {n} differs from the derivative of the numerical solution ({r})",
-                      replay=dict(task=[t[0], t[1], t[2], t[3], t[4], t[5], t[6], t[7], t[8]], model=m))
+                      replay=dict(task=list(t), model=m))
     ctx.twin('twin: gradient == derivative + 1 must fail', tw == len(tasks))
 
 
@@ -99,14 +102,14 @@ def replay(data):
     """plain float64 tensors: autograd gradient vs central finite differences of the real sdeint at the model point"""
     import torchsde
     r = data['replay']
-    st, method, nt, opts, d, m, B, ts, dt = r['task']
+    st, method, nt, opts, d, m, B, ts, dt, degy = r['task']
     env = r.get('model') or {}
 
     def run_once(shift=None):
         mk = sdes.Maker(symbolic=False, env=dict(env), seed=11)
         if shift:
             mk.env.update(shift)
-        sde, bm, y0, ys = solve(mk, st, method, nt, opts, d, m, B, ts, dt)
+        sde, bm, y0, ys = solve(mk, st, method, nt, opts, d, m, B, ts, dt, degy=degy)
         w = mk('lw', tuple(ys.shape), values=0.5 + 0.1 * np.arange(ys.numel()).reshape(tuple(ys.shape)))
         return mk, sde, y0, (ys * w).sum()
     mk, sde, y0, loss = run_once()
